@@ -105,6 +105,18 @@ def run(res):
                                                                          "model": (r.model_status, r.model_pos)}})
     else:
         res.discharged.append(name)
+    res.coverage.update({
+        "evaluations": len(recs),
+        "distinct_nontrivial": sum(1 for r in recs if r.origin not in ("valid", "special") and r.real_status in ("ok", "err")),
+        "rule": "token streams: the valid pattern corpus (every kind in every parent, every field operation, random compositions to depth 6, six layouts), "
+                "every truncation of a sample of them at every token position, single-token edits (delete, duplicate, swap, insert or replace by a foreign "
+                "token, unwrap a group), C15's malformations bare and embedded at random positions of random patterns, grammar-random token sequences with "
+                "nested groups, tuple indices around u32::MAX and usize::MAX, user expressions of 40-150 bytes with 3-byte characters at every alignment in "
+                "every position holding user text, and nesting of every composite kind to depth %d; distinct streams only; non-trivial = streams that are not "
+                "from the valid corpus (the ones the suite cannot contain) and reached the macro" % (11 if res.tier == "quick" else 15),
+        "samples": [{"invocation": r.text, "origin": r.origin, "outcome": r.real_status, "error_at": r.real_pos, "ms": r.ms}
+                    for r in recs[::max(1, len(recs) // 6)][:6]],
+    })
     res.obligations.append("direct:no-panic,terminates(%d streams)" % len(recs))
     if not failing:
         res.discharged.append("direct:no-panic,terminates(%d streams)" % len(recs))
